@@ -238,6 +238,8 @@ type Region struct {
 	// but does not descend into it: what it contains is covered by the
 	// structural-hash half of the check.
 	Immutable bool
+	// Spare: a slice whose capacity exceeds its length (an append writes in place).
+	Spare bool
 	// Zero: every byte reachable by reflection in the pointee is zero (used
 	// to recognise inert package-level sentinels such as nilGetSetObject).
 	Zero bool
@@ -370,7 +372,7 @@ func (w *walker) value(v reflect.Value, path string, depth int) {
 		first := !w.seen[k]
 		w.seen[k] = true
 		if first {
-			w.regions = append(w.regions, Region{Start: v.Pointer(), End: v.Pointer() + uintptr(v.Cap())*es, Type: v.Type().String(), Path: path})
+			w.regions = append(w.regions, Region{Start: v.Pointer(), End: v.Pointer() + uintptr(v.Cap())*es, Type: v.Type().String(), Path: path, Spare: v.Cap() > v.Len()})
 		}
 		if !first || !hasPointers(v.Type().Elem()) {
 			return
@@ -481,6 +483,11 @@ func Classify(sh []SharedRegion) (allowed map[string]int, bad []SharedRegion) {
 		switch {
 		case s.A.Immutable && s.B.Immutable:
 			allowed["immutable:"+s.A.Type]++
+		case s.A.Type == "[]uint16" && s.B.Type == "[]uint16" && s.A.Start == s.B.Start && !s.A.Spare && !s.B.Spare:
+			// payload of a string held as UTF-16 code units: Copy() duplicates the
+			// Value (header) only, which is fine for an immutable string as long as
+			// nobody can append in place: capacity == length
+			allowed["immutable:[]uint16 string payload without spare capacity"]++
 		case s.A.Type == "[]otto.frame" && s.B.Type == "[]otto.frame" && s.A.Start == s.B.Start:
 			// stack trace of an error value: ottoError is a value type whose trace
 			// slice is written only by newError before the value is published
